@@ -287,7 +287,9 @@ fn transpose<B: StarkField, const N: usize>(mut segments: Vec<Segment<B, N>>) ->
 
     // determine number of batches in which transposition will be preformed; if `concurrent`
     // feature is not enabled, the number of batches will always be 1
-    let num_batches = get_num_batches(result_len);
+    // a batch must hold at least one row: for a short and wide matrix (few rows, many segments) and
+    // a large thread pool there can be fewer rows than batches
+    let num_batches = get_num_batches(result_len).min(num_rows);
     let rows_per_batch = num_rows / num_batches;
 
     // define a closure for transposing a given batch
